@@ -18,7 +18,8 @@ import syntax_common as S
 ID = "C07"
 LEVEL = "proof"
 TRANSLATORS = ["syntax", "pycschema"]
-MODEL_TARGETS = ["theories/Syntax.vo"]
+MODEL_TARGETS = ["theories/Syntax.vo", "theories/FileIO.vo"]
+COQ_TARGETS = ["theories/FileIO.vo"]      # imported by the shared correspondence header (syntax_common.COQ_HEADER)
 EXPLANATION = ("Theorems over all trees: the removal pass makes the gate accept (idempotent), leaves accepted trees untouched, "
                "and undoes any insertion of self-rejected statements over fresh identifiers at any block position; "
                "strict mode refuses. Model tied to /repo by generated tables + correspondence of omit paths, trees after ast_mod, syntax_check.")
